@@ -1,7 +1,6 @@
 package rules
 
 import (
-	"os"
 	"fmt"
 	"go/constant"
 	"go/types"
@@ -56,6 +55,31 @@ func c14(c *Ctx) {
 			// disjunct to pair the retry counter test with the matching ourMsg fact
 			var descr []string
 			okAll, found := true, false
+			classify := func(conj []facts.Fact) {
+				signed, unsigned := false, false
+				var K int64 = -1
+				for _, x := range conj {
+					if x.Atom == s+".ourMsg != nil" {
+						signed = true
+					}
+					if x.Atom == s+".ourMsg == nil" {
+						unsigned = true
+					}
+					var k int64
+					if n, _ := fmt.Sscanf(x.Atom, "%d <= "+s+".retryCount", &k); n == 1 && k > K {
+						K = k
+					}
+				}
+				switch {
+				case signed && !unsigned && K >= 14400:
+					descr = append(descr, fmt.Sprintf("signed: retryCount >= %d", K))
+				case unsigned && !signed && K >= 1:
+					descr = append(descr, fmt.Sprintf("never signed: retryCount >= %d", K))
+				default:
+					okAll = false
+					descr = append(descr, fmt.Sprintf("UNCLASSIFIED disjunct {%s}", facts.Join(conj)))
+				}
+			}
 			for _, f := range fs {
 				if _, isPhi := f.Cond.(*ssa.Phi); !isPhi || !f.Pol {
 					continue
@@ -74,28 +98,23 @@ func c14(c *Ctx) {
 				}
 				found = true
 				for _, conj := range djs {
-					signed, unsigned := false, false
-					var K int64 = -1
-					for _, x := range conj {
-						if x.Atom == s+".ourMsg != nil" {
-							signed = true
+					classify(conj)
+				}
+			}
+			if !found {
+				// the guard written as a short-circuit condition of an if (no boolean phi): every
+				// way into the deleting block is one disjunct, with the facts of that edge
+				found = true
+				blk := cl.Block()
+				if len(blk.Preds) <= 1 {
+					classify(fs)
+				} else {
+					for _, pr := range blk.Preds {
+						for k, sc := range pr.Succs {
+							if sc == blk {
+								classify(facts.AtEdge(pr, k, nil))
+							}
 						}
-						if x.Atom == s+".ourMsg == nil" {
-							unsigned = true
-						}
-						var k int64
-						if n, _ := fmt.Sscanf(x.Atom, "%d <= "+s+".retryCount", &k); n == 1 && k > K {
-							K = k
-						}
-					}
-					switch {
-					case signed && !unsigned && K >= 14400:
-						descr = append(descr, fmt.Sprintf("signed: retryCount >= %d", K))
-					case unsigned && !signed && K >= 1:
-						descr = append(descr, fmt.Sprintf("never signed: retryCount >= %d", K))
-					default:
-						okAll = false
-						descr = append(descr, fmt.Sprintf("UNCLASSIFIED disjunct {%s}", facts.Join(conj)))
 					}
 				}
 			}
@@ -186,65 +205,36 @@ func c14(c *Ctx) {
 	}
 	// ---- progress: the settle case can be taken only once per entry (otherwise it shadows every later case forever)
 	nsettle := 0
+	ageAtom := fmt.Sprintf("%d < time.Since(%s.firstObserved)", stl, s)
+	inSettle := func(fs []facts.Fact) bool { return facts.HasAtom(fs, "!"+s+".settled") && facts.HasAtom(fs, ageAtom) }
 	for _, b := range fn.Blocks {
 		iff, ok := b.Instrs[len(b.Instrs)-1].(*ssa.If)
-		if !ok {
+		if !ok || len(b.Succs) != 2 {
 			continue
 		}
-		isSettle := false
-		for _, conj := range facts.DNF(iff.Cond, true) {
-			hasNot, hasAge := false, false
-			for _, x := range conj {
-				if x.Atom == "!"+s+".settled" {
-					hasNot = true
-				}
-				if x.Atom == fmt.Sprintf("%d < time.Since(%s.firstObserved)", stl, s) {
-					hasAge = true
-				}
-			}
-			if hasNot && hasAge {
-				isSettle = true
-				if os.Getenv("WVSA_DEBUG") != "" {
-					fmt.Println("DEBUG settle-if block", b.Index, facts.Term(iff.Cond), "conj:", facts.Join(conj))
-				}
-			}
-		}
-		if !isSettle || len(b.Succs) != 2 {
+		// the settle case is entered over the edge that completes {!settled, age > settlementTime}:
+		// whether the test is one phi-valued switch case, a short-circuit chain of an if, or two
+		// nested ifs, exactly the edges whose facts have both atoms while the test's own block has
+		// not are entries (tests inside the case inherit both atoms and are not entries)
+		if inSettle(facts.At(iff, nil)) {
 			continue
 		}
-		// tests inside the settle case inherit its guard as path facts: only the outermost one is
-		// the case itself
-		nested := false
-		for _, ob := range fn.Blocks {
-			if ob == b || len(ob.Succs) != 2 {
+		for k := 0; k < 2; k++ {
+			if !inSettle(facts.AtEdge(b, k, nil)) {
 				continue
 			}
-			// (inside the case, or further down the else-chain of the switch: both inherit the
-			// outer test's atoms as path facts of boolean phis)
-			if oiff, ok := ob.Instrs[len(ob.Instrs)-1].(*ssa.If); ok && ob.Dominates(b) {
-				for _, conj := range facts.DNF(oiff.Cond, true) {
-					for _, x := range conj {
-						if x.Atom == "!"+s+".settled" {
-							nested = true
-						}
-					}
+			nsettle++
+			body := b.Succs[k]
+			ok2 := false
+			if len(body.Instrs) > 0 {
+				isStore := func(i ssa.Instruction) bool {
+					st, ok := i.(*ssa.Store)
+					return ok && fieldOfAddr(st.Addr) == a.vs["settled"] && !isFalseConst(st.Val) && strings.HasPrefix(facts.Term(st.Addr), s+".")
 				}
+				ok2 = isStore(body.Instrs[0]) || mustPassBeforeLeaving(body.Instrs[0], isStore)
 			}
+			R.Check("C14.progress", R.Key("C14.progress", shortFn(fn), "settle-once"), c.rel(p.Pos(instrPos(iff))), "every path through the settle case marks the entry settled (otherwise that case matches on every tick and the retry and expiry cases are never reached for the entry)", ok2, "a path leaves the settle case without storing settled = true")
 		}
-		if nested {
-			continue
-		}
-		nsettle++
-		body := b.Succs[0]
-		ok2 := false
-		if len(body.Instrs) > 0 {
-			isStore := func(i ssa.Instruction) bool {
-				st, ok := i.(*ssa.Store)
-				return ok && fieldOfAddr(st.Addr) == a.vs["settled"] && !isFalseConst(st.Val) && strings.HasPrefix(facts.Term(st.Addr), s+".")
-			}
-			ok2 = isStore(body.Instrs[0]) || mustPassBeforeLeaving(body.Instrs[0], isStore)
-		}
-		R.Check("C14.progress", R.Key("C14.progress", shortFn(fn), "settle-once"), c.rel(p.Pos(instrPos(iff))), "every path through the settle case marks the entry settled (otherwise that case matches on every tick and the retry and expiry cases are never reached for the entry)", ok2, "a path leaves the settle case without storing settled = true")
 	}
 	R.Floor("C14.progress.settle-case", nsettle, 1)
 	// an existing entry (with its retry counter and last-retry time) is never replaced
